@@ -397,6 +397,15 @@ _CAT_W = [c[2] for c in CATALOGUE]
 
 
 _OFFTYPE_P = float(os.environ.get("QSIM_C14_OFFTYPE_P", "0.05"))
+# unary matrix routines that are cheap enough at n = 16 and take any (square / Hermitian) matrix
+_BIG_OK = {"decomp.hessenberg.hessenbergize", "decomp.hessenberg.is_hessenberg", "decomp.hessenberg.check_hessenberg",
+           "decomp.tridiagonalize", "decomp.quaternion_eigenvalues", "decomp.quaternion_eigendecomposition",
+           "decomp.quaternion_eigenvectors", "decomp.quaternion_lu", "decomp.qsvd.qr_qua", "decomp.qsvd.classical_qsvd_full",
+           "decomp.quaternion_schur", "decomp.quaternion_schur_pure", "decomp.quaternion_schur_unified",
+           "utils.rank", "utils.quat_frobenius_norm", "utils.quat_hermitian", "utils.induced_matrix_norm_1",
+           "utils.induced_matrix_norm_inf", "utils.spectral_norm_2", "utils.real_expand", "utils.ishermitian",
+           "utils.quaternion_to_complex_adjoint", "decomp.quaternion_modulus", "decomp.quaternion_triu",
+           "decomp.quaternion_tril", "utils.quat_null_space", "utils.normQ"}
 
 
 def gen_fn_step(R, client):
@@ -414,6 +423,20 @@ def gen_fn_step(R, client):
                 args[ai] = SP(a)
                 offtype = True
                 break
+    if R.random() < 0.04 and name in _BIG_OK and args and isinstance(args[0], dict) \
+            and args[0].get("gen") in ("gauss", "herm") and "storage" not in args[0]:
+        # a mid-size argument (n = 12..16): code paths that switch on a size threshold
+        nb = R.randint(12, 16)
+        a0 = args[0]
+        if a0["gen"] == "herm":
+            big = dict(a0, n=nb, lam=[round(R.choice([-1, 1]) * R.uniform(0.2, 3.0), 4) for _ in range(nb)])
+        elif a0.get("m") == a0.get("n"):
+            big = dict(a0, m=nb, n=nb)
+        else:
+            big = dict(a0, m=nb + R.randint(0, 3), n=nb)
+        args = [big] + list(args[1:])
+        if "max_iter" in (kwargs or {}):
+            kwargs = dict(kwargs, max_iter=min(kwargs["max_iter"], 6))
     for ai, a in enumerate(args):
         if isinstance(a, dict) and a.get("storage") == "sparse" and "explicit_zeros" not in a:
             x = R.random()
@@ -794,6 +817,24 @@ def gen_jobs(base_seed, tier, budget=None):
                      for a_ in _S(4, 300 + 10 * fi)]
             jobs.append({"seed": seed, "trace": {"prop": PROP, "seed": seed, "world": w, "mode": "offtype",
                                                  "cfgname": fn_ + repr(sorted(kw_.items())), "seq": ["reduced"], "steps": steps}})
+    # mid-size arguments (n = 13, C-contiguous), once per unary matrix routine: code paths that switch
+    # on a size threshold (blocked / in-place variants for "large" inputs)
+    G13, H13 = G(13, 13, 801), HERM(13, 802, [round(2.0 - 0.25 * i_, 3) for i_ in range(13)])
+    big_calls = [("decomp.hessenberg.hessenbergize", [G13], {}), ("decomp.hessenberg.check_hessenberg", [G13], {}),
+                 ("decomp.tridiagonalize", [H13], {}), ("decomp.quaternion_eigenvalues", [H13], {}),
+                 ("decomp.quaternion_lu", [G13], {"return_p": True}), ("decomp.qsvd.qr_qua", [G(14, 12, 803)], {}),
+                 ("decomp.qsvd.classical_qsvd_full", [G(13, 12, 804)], {}), ("utils.rank", [G13], {}),
+                 ("decomp.quaternion_schur", [G13], {"max_iter": 3}), ("decomp.quaternion_schur_pure", [G13], {"max_iter": 3}),
+                 ("decomp.quaternion_schur_unified", [G13], {"max_iter": 3, "variant": "aed"}),
+                 ("utils.quat_null_space", [G(12, 13, 805)], {}), ("utils.spectral_norm_2", [G13], {}),
+                 ("utils.quaternion_to_complex_adjoint", [G13], {}), ("utils.det", [H13, "Moore"], {})]
+    for bi in range(0, len(big_calls), 5):
+        seed = base_seed * 10 ** 6 + 540000 + bi
+        for w in exh_worlds:
+            steps = [{"k": "fn", "fn": fn_, "args": a_, "client": 0, **({"kwargs": kw_} if kw_ else {})}
+                     for fn_, a_, kw_ in big_calls[bi:bi + 5]]
+            jobs.append({"seed": seed, "trace": {"prop": PROP, "seed": seed, "world": w, "mode": "offtype",
+                                                 "cfgname": "midsize", "seq": [bi], "steps": steps}})
     # off-type table: every catalogue function (and every solver configuration) once with its
     # first dense quaternion matrix handed over as a SparseQuaternionMatrix, in EVERY world -
     # answered or rejected, the outcome must not depend on the import style (class identity)
